@@ -34,6 +34,9 @@ func drawMeasurement(t *Tape) measFactory {
 		return measFactory{"single", func() core.MeasurementInterface { return &measurements.SingleMeasurement{} }}
 	case 2:
 		w := 1 + t.Intn(600, "window")
+		if t.Chance(25, "tiny-window") {
+			w = 1 + t.Intn(3, "window-tiny") // window 1: the average is the newest sample
+		}
 		wu := t.Intn(21, "warmup")
 		return measFactory{fmt.Sprintf("expavg(window=%d,warmup=%d)", w, wu), func() core.MeasurementInterface {
 			return measurements.NewExponentialAverageMeasurement(w, wu)
@@ -102,7 +105,7 @@ func drawSampleValue(t *Tape, base float64) float64 {
 	case 0:
 		return base * (1 + float64(t.Intn(1000, "v"))/1000)
 	case 1:
-		return math.Ldexp(1, t.Intn(50, "pow2"))
+		return math.Ldexp(1, t.Intn(62, "pow2")) // up to 2^61: next to small samples, differences are no longer exact in float64
 	case 2:
 		return base + float64(t.Intn(3, "near"))
 	case 3:
@@ -171,7 +174,6 @@ func runC18(r *Run) {
 		// the documented minimum sample count is ceil(1/alpha); strictly before it the value is the arithmetic mean
 		warm = int(math.Ceil(1/alpha)) - 1
 	}
-	_ = w
 	for i, op := range ops {
 		switch op.kind {
 		case 0:
@@ -244,6 +246,10 @@ func runC18(r *Run) {
 							r.Fail("wrong-value", key, "during warm-up (%d of %d samples) the value must be the arithmetic mean %v, got %v [%s]", len(since), warm, mean, after, mf.name)
 							return
 						}
+					} else if key == "expavg" && w == 1 && len(since) > warm && len(since) > 1 && math.Abs(after-op.x) > 1e-9*math.Abs(op.x) {
+						// a window of one sample puts the whole weight on the newest sample
+						r.Fail("wrong-value", key+"/window1", "exponential average over a window of 1 is %v after Add(%v): the newest sample carries the whole weight [%s]", after, op.x, mf.name)
+						return
 					} else if after < lo-eps || after > hi+eps {
 						r.Fail("wrong-value", key, "exponential average %v lies outside the range [%v, %v] of the samples seen since reset [%s]", after, lo, hi, mf.name)
 						return
